@@ -132,6 +132,29 @@ WhyNot(f) ==
 TablesOf(f) == {<<RecAt(f, i).tag, TableBytes(f, RecAt(f, i))>> : i \in 1..NumTables(f)}
 
 ---------------------------------------------------------------------------
+(* Whole fonts.  Tables every OpenType font must contain ("Font tables",   *)
+(* required tables), plus the outline tables of its kind.  cmap is only    *)
+(* demanded of fonts that have a character map at all (Font.Write of the   *)
+(* unchanged tree writes none for CMapTable = nil).                        *)
+TagOf(name) == CASE name = "head" -> HEAD
+                 [] name = "hhea" -> <<104, 104, 101, 97>>
+                 [] name = "hmtx" -> <<104, 109, 116, 120>>
+                 [] name = "maxp" -> <<109, 97, 120, 112>>
+                 [] name = "name" -> <<110, 97, 109, 101>>
+                 [] name = "OS/2" -> <<79, 83, 47, 50>>
+                 [] name = "post" -> <<112, 111, 115, 116>>
+                 [] name = "cmap" -> <<99, 109, 97, 112>>
+                 [] name = "glyf" -> <<103, 108, 121, 102>>
+                 [] name = "loca" -> <<108, 111, 99, 97>>
+                 [] name = "CFF " -> <<67, 70, 70, 32>>
+RequiredNames(okind, hasCmap) ==
+  {"head", "hhea", "hmtx", "maxp", "name", "OS/2", "post"}
+    \cup (IF hasCmap THEN {"cmap"} ELSE {})
+    \cup (IF okind = "ttf" THEN {"glyf", "loca"} ELSE {"CFF "})
+RequiredTables(okind, hasCmap) == {TagOf(nm) : nm \in RequiredNames(okind, hasCmap)}
+TagsIn(f) == {RecAt(f, i).tag : i \in 1..NumTables(f)}
+
+---------------------------------------------------------------------------
 (* Inputs of the writer: a sequence of entries [tag, nil, data] with       *)
 (* pairwise different tags (a Go map).  Entries with nil = TRUE are not    *)
 (* written.  The writer stores checkSumAdjustment into the head data, so   *)
